@@ -379,6 +379,7 @@ impl Exec {
                 out.line(&format!("= {ans}"));
                 out.line(&format!("nogoodcheck {} {} {}", if is_concl { "concl" } else { "closure" }, ws[1], ans));
                 out.line("~ ok");
+                out.line("= contract ok");
                 true
             }
             "ngdump" if ws.len() == 1 => {
